@@ -608,7 +608,12 @@ def gen_agree(rng, idx):
     for t in range(T):
         pos = jitter(rng, pos, 0.15)
         steps.append((pos, [[rng.uniform(-3, 3) for _ in range(3)] for _ in range(NATA)]))
-    return dict(idx=idx, sysm=sysm, cvs=cvs, biases=biases, T=T, start=start, newrun_at=newrun_at, steps=steps)
+    # a scripted-force procedure that adds a force on the first variable and an energy (cv addenergy), called before or
+    # after the built-in biases
+    cb = None
+    if rng.random() < 0.3 and cvs:
+        cb = dict(after=(rng.random() < 0.5), energy=fnum(round(rng.uniform(-3, 3), 3) or 1.5), force=fnum(round(rng.uniform(-0.5, 0.5), 3)), cv=cvs[0]["name"])
+    return dict(idx=idx, sysm=sysm, cvs=cvs, biases=biases, T=T, start=start, newrun_at=newrun_at, steps=steps, cb=cb)
 
 
 def agree_queries(case):
@@ -640,7 +645,11 @@ def agree_queries(case):
 
 def agree_scenario(case):
     s = corpus.scenario_header(case["sysm"], tfmode="same", extra="dt 1.0\ntemp 300.0")
-    s += "module\nconfig <<EOC\ncolvarsTrajFrequency 0\n" + "\n".join(c["text"] for c in case["cvs"]) + "\n" + "".join(b["text"] for b in case["biases"]) + "EOC\ninit\n"
+    glob = "colvarsTrajFrequency 0\n"
+    if case.get("cb"):
+        s += "forcecb %s %s %s\n" % (case["cb"]["cv"], case["cb"]["force"], case["cb"]["energy"])
+        glob += "scriptedColvarForces on\nscriptingAfterBiases %s\n" % ("on" if case["cb"]["after"] else "off")
+    s += "module\nconfig <<EOC\n" + glob + "\n".join(c["text"] for c in case["cvs"]) + "\n" + "".join(b["text"] for b in case["biases"]) + "EOC\ninit\n"
     if case["start"]:
         s += "setstep %d\n" % case["start"]
     for cv in case["cvs"]:
